@@ -171,6 +171,8 @@ type chunk struct {
 
 type pipe struct {
 	mu      sync.Mutex
+	cap     int // receive window in bytes (0 = unlimited): a writer blocks while it is full
+	held    int // bytes written and not yet read
 	chunks  []chunk
 	lastAt  time.Time
 	wake    chan struct{}
@@ -215,6 +217,15 @@ func (c *Conn) LocalAddr() net.Addr  { return c.local }
 func (c *Conn) RemoteAddr() net.Addr { return c.remote }
 func (c *Conn) Peer() *Conn          { return c.peer }
 
+// SetWindow bounds the bytes that may be in flight towards this end (receive window): once that
+// many bytes are written and unread, the peer's Write blocks until this end reads, the writer's
+// deadline passes, or the connection is closed.
+func (c *Conn) SetWindow(n int) {
+	c.rd.mu.Lock()
+	c.rd.cap = n
+	c.rd.mu.Unlock()
+}
+
 // SetReadSizes makes successive Reads on this end return at most the given
 // numbers of bytes (short reads), then unlimited.
 func (c *Conn) SetReadSizes(sizes []int) {
@@ -258,12 +269,14 @@ func (c *Conn) Read(b []byte) (int, error) {
 			for n < limit && len(p.chunks) > 0 && !p.chunks[0].at.After(now) {
 				k := copy(b[n:limit], p.chunks[0].data)
 				n += k
+				p.held -= k
 				if k == len(p.chunks[0].data) {
 					p.chunks = p.chunks[1:]
 				} else {
 					p.chunks[0].data = p.chunks[0].data[k:]
 				}
 			}
+			p.signalLocked() // a blocked writer may continue
 			p.mu.Unlock()
 			return n, nil
 		}
@@ -304,6 +317,70 @@ func (c *Conn) Read(b []byte) (int, error) {
 }
 
 func (c *Conn) Write(b []byte) (int, error) {
+	c.wr.mu.Lock()
+	window := c.wr.cap
+	c.wr.mu.Unlock()
+	if window <= 0 {
+		return c.writeOnce(b)
+	}
+	// flow control: at most `window` unread bytes may be in flight
+	total := 0
+	blocked := false
+	for len(b) > 0 {
+		c.mu.Lock()
+		closed, dl, dlw := c.closed, c.wdeadline, c.dlWake
+		c.mu.Unlock()
+		if closed {
+			return total, net.ErrClosed
+		}
+		p := c.wr
+		p.mu.Lock()
+		room := p.cap - p.held
+		gone := p.rclosed || p.reset != nil || p.closed
+		wake := p.wake
+		p.mu.Unlock()
+		if room > 0 || gone {
+			k := len(b)
+			if !gone && k > room {
+				k = room
+			}
+			n, err := c.writeOnce(b[:k])
+			total += n
+			if err != nil {
+				return total, err
+			}
+			b = b[k:]
+			continue
+		}
+		now := time.Now()
+		if !dl.IsZero() && !dl.After(now) {
+			c.net.Stats.Add("stream.write_deadline_while_blocked", 1)
+			return total, &net.OpError{Op: "write", Net: "tcp", Err: ErrTimeout}
+		}
+		if !blocked {
+			blocked = true
+			c.net.Stats.Add("stream.writes_blocked_by_window", 1)
+		}
+		var tC <-chan time.Time
+		var timer *time.Timer
+		if !dl.IsZero() {
+			timer = time.NewTimer(dl.Sub(now))
+			tC = timer.C
+		}
+		select {
+		case <-wake:
+		case <-tC:
+		case <-dlw:
+		}
+		if timer != nil {
+			timer.Stop()
+		}
+	}
+	return total, nil
+}
+
+// writeOnce hands b to the peer's receive queue without flow control.
+func (c *Conn) writeOnce(b []byte) (int, error) {
 	c.mu.Lock()
 	if c.closed {
 		c.mu.Unlock()
@@ -374,6 +451,7 @@ func (c *Conn) Write(b []byte) (int, error) {
 			c.net.Stats.Add("stream.delayed_pieces", 1)
 		}
 		p.chunks = append(p.chunks, chunk{data: rest[:k], at: at})
+		p.held += k
 		rest = rest[k:]
 		if i > 0 {
 			c.net.Stats.Add("stream.cuts", 1)
@@ -436,6 +514,7 @@ func (c *Conn) Abort() {
 		p.mu.Lock()
 		p.reset = ErrReset
 		p.chunks = nil
+		p.held = 0
 		p.signalLocked()
 		p.mu.Unlock()
 	}
